@@ -8,7 +8,13 @@ from . import proto
 
 JUNK = ["int main() { return 0; }", "#include <HERA.h>", "SET(R1, 5)", "{{{ ((( \"unterminated", "/* comment", "'x", "#define FOO 1",
         "#ifdefX", "# ifdef A", "text #ifdef A", "void HERA_main() {", "}", "", "   ", "\t", "#else junk", "#endif // c", "ifdef HERA_PY"]
-SYMS = ["HERA_PY", "HERA_C", "FOO", "_x1", "HERA_PYX", "hera_py"]
+# near misses of the one defined symbol: other names, case variants, proper substrings, prefixes and extensions
+SYMS = ["HERA_C", "FOO", "_x1", "HERA_PYX", "hera_py", "HERA", "PY", "A", "_", "H", "HERA_P", "ERA_PY", "HERA_PY_", "XHERA_PY", "HERA_Py",
+        "HERA_PY2", "HERA_CPP", "Y"]
+
+
+def pick_sym(rng):
+    return "HERA_PY" if rng.random() < 0.4 else rng.choice(SYMS)
 
 
 def gen_tree(rng, depth):
@@ -17,7 +23,7 @@ def gen_tree(rng, depth):
     for _ in range(rng.choice([1, 2, 3])):
         if depth > 0 and rng.random() < 0.5:
             els = gen_tree(rng, depth - 1) if rng.random() < 0.5 else None
-            nodes.append(("cond", rng.random() < 0.4, rng.choice(SYMS), gen_tree(rng, depth - 1), els))
+            nodes.append(("cond", rng.random() < 0.4, pick_sym(rng), gen_tree(rng, depth - 1), els))
         else:
             lines = [rng.choice(JUNK) if rng.random() < 0.7 else "ADD(R{},R1,R2)".format(rng.randint(0, 15)) for _ in range(rng.choice([1, 1, 2, 3]))]
             nodes.append(("text", "\n".join(lines) + "\n"))
